@@ -1,1 +1,52 @@
-From CMinx Require Import Base.Str.
+(* Properties/C05.v -- Every valid CMake file is accepted, with CMake's argument boundaries.
+   Only theorem statements; proofs are in Proofs/ParserFacts.v, LexerFacts.v, AggInv.v,
+   CleanFacts.v (GrammarFacts.v adds the reference-grammar round trip).  Partial: real CMake is an
+   oracle (cmake -P, CMake's own modules), not modelled. *)
+From Coq Require Import String List NArith.
+From CMinx Require Import Base.Str Model.Lexer Model.Parser Model.DocTypes Model.Aggregator
+     Model.Pipeline Spec.AggSpec Proofs.LexerFacts Proofs.ParserFacts Proofs.AggInv
+     Proofs.CleanFacts.
+Import ListNotations.
+
+(* UTF-8 text: decoding is total on encodings of scalar values and the inverse of encoding *)
+Theorem C05_utf8_roundtrip :
+  forall x, forallb is_scalar x = true -> utf8_decode (utf8_encode x) = Some x.
+Proof. exact utf8_roundtrip. Qed.
+Print Assumptions C05_utf8_roundtrip.
+
+Theorem C05_bom_accepted :
+  forall x, forallb is_scalar x = true ->
+    decode_source (239 :: 187 :: 191 :: utf8_encode x)%N = Some x.
+Proof. exact decode_source_bom. Qed.
+Print Assumptions C05_bom_accepted.
+
+(* the parser: accepted token sequences and well-formed trees are in bijection; the tree holds
+   every argument in order (same argument boundaries as the token sequence) *)
+Theorem C05_parse_bijection :
+  (forall ts f, Forall tok_canon ts -> parse ts = Some f -> wf_file f = true /\ unparse_file f = ts)
+  /\ (forall f, wf_file f = true -> Forall tok_canon (unparse_file f) /\ parse (unparse_file f) = Some f).
+Proof. exact parse_bijection. Qed.
+Print Assumptions C05_parse_bijection.
+
+(* identifiers are lexed as themselves before any delimiter *)
+Theorem C05_identifier_token :
+  forall a r rest, is_ident_start a = true -> forallb is_ident_char r = true ->
+    ident_delim rest = true -> best ((a :: r) ++ rest) = Some (TIdent, length (a :: r)).
+Proof. exact best_ident_delim. Qed.
+Print Assumptions C05_identifier_token.
+
+(* a quoted piece is always a terminated quoted argument *)
+Theorem C05_quoted_piece_shape :
+  forall x n, best x = Some (TQuoted, n) ->
+    (exists r, x = dq :: r) /\ 2 <= n /\ nth_error x (n - 1) = Some dq.
+Proof. exact quoted_piece_shape. Qed.
+Print Assumptions C05_quoted_piece_shape.
+
+(* processed to completion: under default settings the aggregator raises exactly when the
+   one-pass specification does, i.e. on an unbalanced end command / class end or a function()
+   without a name -- never on a balanced file *)
+Theorem C05_crash_iff_spec_none :
+  forall trigger strip_fn strip_mac strip_mem f,
+    aggregate default_flags trigger strip_fn strip_mac strip_mem f = Crash <-> expected_keys f = None.
+Proof. exact crash_iff_spec_none. Qed.
+Print Assumptions C05_crash_iff_spec_none.
